@@ -32,7 +32,7 @@ THEOREMS = [
         "binop_table", "intdiv_real", "intdiv_without_cast_truncates", "pow_real", "pow_int_exact_partial",
         "unary", "unary_type", "compare", "bool_refused", "other_operators_refused",
         "const_typing", "guess_type_legacy", "set_var_cast", "acc_wide_enough", "agg_refusals",
-        "count_correct", "sum_correct", "maxmin_correct_partial", "cond_arm", "cond_shape", "boolop_truth",
+        "count_correct", "sum_correct", "maxmin_correct_partial", "clamp_sum_correct", "cond_arm", "cond_shape", "boolop_truth",
         "mod_float_counterexample", "neg_bool_counterexample", "not_float_counterexample",
         "not_float_kind_counterexample", "cond_int_counterexample", "max_int_counterexample", "mod_negative_differs",
     ]
@@ -126,6 +126,21 @@ def table_cases(thorough: bool = True) -> List[Tuple[str, str, Dict[str, Any]]]:
             out.append(("aggregate", "jet", X.form_agg(seed, {"plain": v})))
         out.append(("aggregate", "jet", X.form_agg(seed, {"plain": X.binop("Add", acc, X.binop("Div", X.leaf("jet", "i"), X.int_lit(2)))})))
         out.append(("aggregate", "jet", X.form_agg(seed, {"plain": X.binop("Add", X.binop("Mod", acc, X.int_lit(3)), X.leaf("jet", "i"))})))
+    # a conditional INSIDE the lambda of an Aggregate, the accumulator in its test and/or an arm, next to integer and real
+    # terms: the conditional is typed while the accumulator still has the seed's type, the accumulator widens afterwards
+    zero, one = X.int_lit(0), X.int_lit(1)
+    for seed in (X.int_lit(0), X.int_lit(1), X.flt_lit(0.5)):
+        for k in ("i", "f", "d"):
+            v = X.leaf("jet", k)
+            for t, a, b, body_of in (
+                (X.cmpop("Gt", acc, zero), acc, zero, lambda R: X.binop("Add", R, v)),
+                (X.cmpop("Lt", acc, v), acc, one, lambda R: X.binop("Add", v, R)),
+                (X.cmpop("Gt", acc, one), v, X.int_lit(2), lambda R: X.binop("Add", X.binop("Mult", R, X.int_lit(2)), X.leaf("jet", "d2"))),
+                (X.cmpop("Gt", v, one), acc, X.binop("Add", acc, one), lambda R: X.binop("Add", R, X.binop("Div", X.leaf("jet", "i"), X.int_lit(2)))),
+                (X.cmpop("Gt", v, one), one, zero, lambda R: X.binop("Add", X.binop("Add", acc, R), v)),
+                (X.cmpop("GtE", acc, X.int_lit(3)), zero, acc, lambda R: X.binop("Add", X.binop("Sub", acc, R), v)),
+            ):
+                out.append(("aggregate-conditional", "jet", X.form_agg_cond_in(seed, t, a, b, body_of)))
     # negative integer exponents (a constant, a negated integer value): the power is a fraction
     for exp_ in (X.unop("USub", X.int_lit(1)), X.unop("USub", X.int_lit(2)), X.unop("USub", X.leaf("jet", "i2"))):
         for base in (X.int_lit(4), X.leaf("jet", "i"), X.leaf("jet", "f"), X.leaf("jet", "d")):
@@ -171,6 +186,16 @@ def random_cases(rng, n: int) -> List[Tuple[str, str, Dict[str, Any]]]:
         elif c < 0.9:
             t = X.cmpop(rng.choice(list(X.CMP_OPS)), X.random_expr(rng, level, 1), X.random_expr(rng, level, 1))
             out.append(("random-cond", level, X.form_cond(t, X.random_expr(rng, level, d - 1), X.random_expr(rng, level, d - 1))))
+        elif c > 0.96:
+            seed = rng.choice([X.int_lit(0), X.int_lit(2), X.flt_lit(0.5)])
+            accl = X.acc_leaf()
+            pool = lambda: rng.choice([accl, accl, X.int_lit(rng.randrange(4)), X.leaf("jet", rng.choice(["i", "d", "f", "i2", "d2"]))])
+            t = X.cmpop(rng.choice(list(X.CMP_OPS)), pool(), pool())
+            a, b, term = pool(), pool(), X.random_expr(rng, "jet", 1)
+            op1, op2 = rng.choice(["Add", "Sub", "Mult"]), rng.choice(["Add", "Sub"])
+            shape = rng.randrange(3)
+            body_of = [lambda R: X.binop(op1, R, term), lambda R: X.binop(op2, X.binop(op1, accl, R), term), lambda R: X.binop(op1, term, R)][shape]
+            out.append(("random-agg-conditional", "jet", X.form_agg_cond_in(seed, t, a, b, body_of)))
         else:
             seed = rng.choice([X.int_lit(0), X.int_lit(2), X.flt_lit(0.5)])
             body = X.random_expr(rng, "jet", 1)
@@ -324,7 +349,7 @@ def evaluate_cases(ctx, cases, judge_excluded: bool = False, observed: Optional[
 def impl_leaves(form, r):
     """operand table for the Lean parser of the implementation's text: the variables the implementation declares
     (conditional result, accumulator, aggregate operands) carry the type IT declared them with"""
-    leaves = X.leaves_of(form) + [["R", r["spec"].get("resTy", "double"), X.IF_SLOT]]
+    leaves = [l for l in X.leaves_of(form) if l[0] != "R"] + [["R", r["spec"].get("resTy", "double"), X.IF_SLOT]]
     if form["form"] == "agg":
         leaves = [l for l in leaves if l[0] != "A"] + [["A", r["spec"]["accTy"], X.ACC_SLOT]]
     lt = r.get("leaf_types", {})
